@@ -574,3 +574,18 @@ Proof.
   - apply Nat.eqb_eq in H. now subst.
   - inversion H. apply Nat.eqb_refl.
 Qed.
+
+(* the weight on the flag = 1 branch: |b_k|^2 = sin^2(th_k/2), and these sum to 2^n - 1 when the |a_k|^2 sum to 1 *)
+Lemma bk_norm th ph k : (bk th ph k * Cconj (bk th ph k))%C = RtoC (sin (th k / 2) * sin (th k / 2)).
+Proof.
+  unfold bk, Cconj. pose proof (sin2_cos2 (ph k / 2)) as P. unfold Rsqr in P.
+  apply injective_projections; cbn [fst snd Cmult Cplus Copp RtoC]; nra.
+Qed.
+Theorem rest_weight n th ph :
+  bigsum (fun k => RtoC (cos (th k / 2) * cos (th k / 2))) (2 ^ n) = 1 ->
+  bigsum (fun k => (bk th ph k * Cconj (bk th ph k))%C) (2 ^ n) = RtoC (2 ^ n - 1).
+Proof.
+  intros H. rewrite (bigsum_ext _ (fun k => RtoC (sin (th k / 2) * sin (th k / 2)))).
+  - exact (sin2_sum n th H).
+  - intros k. apply bk_norm.
+Qed.
